@@ -64,8 +64,51 @@ let vec_step r (v : float vec) : float vec =
   | "df" -> v_assign_from v (v_default fops)
   | o -> raise (Ctor ("MODELERR unknown_step_" ^ o))
 let rec steps f r a k = if k <= 0 then a else steps f r (f r a) (k - 1)
-let rd_mat r = let a = plain_mat r in if !hist then (let k = integer r in steps mat_step r a k) else a
-let rd_vec r = let v = plain_vec r in if !hist then (let k = integer r in steps vec_step r v k) else v
+(* `life` cases: the live objects of the session; an argument `@k` is object k itself (no history suffix) *)
+let lms : float mat list ref = ref []
+let lvs : float vec list ref = ref []
+let obj_ref r = if more r && String.length r.toks.(r.pos) > 1 && r.toks.(r.pos).[0] = '@'
+  then (let w = word r in Some (int_of_string (String.sub w 1 (String.length w - 1)))) else None
+let rd_mat r = match obj_ref r with
+  | Some k -> ok_or_raise (get !lms (n k))
+  | None -> let a = plain_mat r in if !hist then (let k = integer r in steps mat_step r a k) else a
+let rd_vec r = match obj_ref r with
+  | Some k -> ok_or_raise (get !lvs (n k))
+  | None -> let v = plain_vec r in if !hist then (let k = integer r in steps vec_step r v k) else v
+let marg r = match obj_ref r with Some k -> MObj (n k) | None -> MLit (plain_mat r)
+let varg r = match obj_ref r with Some k -> VObj (n k) | None -> VLit (plain_vec r)
+(* a step that changes object k: parsed into the model's own step type, run by the extracted life_m / life_v *)
+let mmut_of r k : float mmut =
+  match word r with
+  | "rs" -> let p = integer r in let q = integer r in MuResize (n p, n q)
+  | "as" -> let p = integer r in let q = integer r in let e = num r in MuAssign (n p, n q, e)
+  | "dr" -> MuDelRow (n (integer r))
+  | "dc" -> MuDelCol (n (integer r))
+  | "st" -> let i = integer r in let j = integer r in let x = num r in MuSet (n i, n j, x)
+  | "cp" -> MuCopy | "eq" -> MuEqChain | "se" -> MuSelf
+  | "af" -> MuFrom (marg r)
+  | "pa" -> MuAddAssign (marg r) | "ma" -> MuSubAssign (marg r)
+  | "sa" -> MuAddAssign (MObj (n k)) | "ss" -> MuSubAssign (MObj (n k))
+  | "pl" -> MuPlus (marg r) | "mi" -> MuMinus (marg r)
+  | "tr" -> MuTranspose
+  | "ms" -> MuMulS (num r) | "dv" -> MuDivS (num r)
+  | "z" -> let p = integer r in let q = integer r in MuZero (n p, n q)
+  | "df" -> MuDefault
+  | o -> raise (Ctor ("MODELERR unknown_step_" ^ o))
+let vmut_of r k : float vmut =
+  match word r with
+  | "rs" -> VuResize (n (integer r))
+  | "as" -> let p = integer r in let e = num r in VuAssign (n p, e)
+  | "st" -> let i = integer r in let x = num r in VuSet (n i, x)
+  | "cp" -> VuCopy | "eq" -> VuEqChain | "se" -> VuSelf
+  | "af" -> VuFrom (varg r)
+  | "pa" -> VuAddAssign (varg r) | "ma" -> VuSubAssign (varg r)
+  | "sa" -> VuAddAssign (VObj (n k)) | "ss" -> VuSubAssign (VObj (n k))
+  | "pl" -> VuPlus (varg r) | "mi" -> VuMinus (varg r)
+  | "ms" -> VuMulS (num r) | "sm" -> VuSMul (num r) | "dv" -> VuDivS (num r)
+  | "z" -> VuZero (n (integer r))
+  | "df" -> VuDefault
+  | o -> raise (Ctor ("MODELERR unknown_step_" ^ o))
 (* block given as  r c e_11 ... e_rc : Matrix(r,c,0.0) then assigned entry by entry *)
 let rd_block r =
   let rr = integer r in let cc = integer r in
@@ -77,11 +120,7 @@ let mm name f r = let a = rd_mat r in let b = rd_mat r in put_res put_mat (f fop
 let ms f r = let a = rd_mat r in let s = num r in put_res put_mat (f fops a s)
 let vv f r = let u = rd_vec r in let v = rd_vec r in put_res put_vec (f fops u v)
 
-let handler r =
-  try
-  hist := false;
-  let op = word r in
-  let op = if op = "hist" then (hist := true; word r) else op in
+let dispatch op r =
   match op with
   | "m_plus" -> mm "" m_plus r
   | "m_minus" -> mm "" m_minus r
@@ -126,10 +165,10 @@ let handler r =
   | "return_row" -> let a = rd_mat r in let i = integer r in put_res put_vec (return_row a (n i))
   | "return_column" -> let a = rd_mat r in let i = integer r in put_res put_vec (return_column fops a (n i))
   | "m_eq" -> let a = rd_mat r in let b = rd_mat r in put_b (m_eq fops a b)
-  | "v_at" -> let v = rd_vec r in let i = integer r in put_res put_f (v_at v (n i))
+  | "v_at" | "v_atc" -> let v = rd_vec r in let i = integer r in put_res put_f (v_at v (n i))
   | "m_show" -> let a = rd_mat r in put_mat a
   | "v_show" -> let v = rd_vec r in put_vec v
-  | "m_at" -> let a = rd_mat r in let i = integer r in let j = integer r in put_res put_f (m_at a (n i) (n j))
+  | "m_at" | "m_atc" -> let a = rd_mat r in let i = integer r in let j = integer r in put_res put_f (m_at a (n i) (n j))
   | "identity" -> let k = integer r in put_mat (identity fops (n k))
   | "mat_diag" -> let d = list r in put_mat (mat_diag fops d)
   | "mat_fill" -> let a = integer r in let b = integer r in let e = num r in put_mat (mat_fill (n a) (n b) e)
@@ -162,6 +201,26 @@ let handler r =
        | Ok w -> put_vec w; put_res put_f (vdot fops u w); put_res put_f (vdot fops v w)
        | e -> put_res put_vec e)
   | o -> put_w ("MODELERR unknown_op_" ^ o)
+
+let handler r =
+  try
+  hist := false; lms := []; lvs := [];
+  let op = word r in
+  let op = if op = "hist" then (hist := true; word r) else op in
+  if op <> "life" then dispatch op r
+  else begin
+    (* life NM T_1 .. T_NM NV L_1 .. L_NV K step_1 .. step_K ;  step = m k <mutator> | v k <mutator> | o <op> <args> *)
+    let nm = integer r in lms := List.init nm (fun _ -> plain_mat r);
+    let nv = integer r in lvs := List.init nv (fun _ -> plain_vec r);
+    let k = integer r in
+    for _ = 1 to k do
+      match word r with
+      | "m" -> let j = integer r in let mu = mmut_of r j in lms := ok_or_raise (life_m fops !lms (n j) mu)
+      | "v" -> let j = integer r in let mu = vmut_of r j in lvs := ok_or_raise (life_v fops !lvs (n j) mu)
+      | "o" -> let o = word r in dispatch o r; put_w "|"
+      | o -> raise (Ctor ("MODELERR unknown_life_step_" ^ o))
+    done
+  end
   with Ctor s -> Buffer.clear buf; first := true; put_w s
 
 let () = run handler
